@@ -605,6 +605,38 @@ theorem C11_every_created_path_inside_outdir
 
 end Ops
 
+/-- The same for a run without types (`--generate-support only`, an empty root namespace): only the support
+files and their directories are created, all below `outDir`. -/
+theorem C11_support_only_run_inside_outdir (cfg : Cfg) (subs names : List Str) (hsubs : ∀ s ∈ subs, IdSeg s)
+    (hres : ∀ n ∈ names, ∃ stem suf, n = stem ++ '.' :: suf ∧ IdSeg stem ∧ suf ≠ [] ∧ '.' ∉ suf ∧ '/' ∉ suf)
+    (hext : ValidExt cfg.ext) :
+    ∀ p ∈ createdPaths cfg (buildTree cfg []) false subs names,
+      InsideSafe (basePath cfg) p ∨ p <+: basePath cfg := by
+  have hfiles : ∀ p, (.ok p : PathR) ∈ writtenFiles cfg (buildTree cfg []) false subs names →
+      InsideSafe (basePath cfg) p := by
+    intro p hp
+    unfold writtenFiles at hp
+    rw [(C11_empty_type_list cfg).2.2.1] at hp
+    simp only [Bool.false_eq_true, if_false, List.map_nil, List.nil_append] at hp
+    obtain ⟨n, hn, hnp⟩ := List.mem_map.1 hp
+    obtain ⟨stem, suf, rfl, h1, h2, h3, h4⟩ := hres n hn
+    have hb : buildTree cfg [] = buildWith cfg [] (loop1 cfg []).idx := rfl
+    rw [hb, (C11_support_file_inside_outdir cfg [] _ subs stem suf hsubs h1 h2 h3 h4 hext).1] at hnp
+    cases hnp
+    refine ⟨subs ++ [stem ++ cfg.ext], rfl, by simp, ?_⟩
+    intro s hs
+    rcases List.mem_append.1 hs with hs | hs
+    · exact idseg_safeSeg (hsubs s hs)
+    · rw [List.mem_singleton.1 hs]; exact file_safeSeg h1 hext
+  intro p hp
+  unfold createdPaths at hp
+  rcases List.mem_append.1 hp with hp | hp
+  · exact Or.inl (hfiles p ((mem_okPaths _ _).1 hp))
+  · obtain ⟨f, hf, hpf⟩ := List.mem_flatMap.1 hp
+    rcases mkdirChain_insideSafe _ f (hfiles f ((mem_okPaths _ _).1 hf)) p hpf with h | h
+    · exact Or.inr h
+    · exact Or.inl h
+
 /-! ## Non-vacuity and regression witnesses -/
 
 section Examples
